@@ -1,6 +1,6 @@
 #!/usr/bin/env python3
 """Re-runs the current checker on every stored change (seeded/ = breaking, benign/ = behaviour-preserving)
-and rewrites meta.json's static_check block. Uses one scratch worktree of /repo HEAD outside /repo and /verif.
+and rewrites meta.json's static_check block. Uses REFRESH_WORKERS (default 8) scratch worktrees of /repo HEAD outside /repo and /verif, removed at the end.
 usage: refresh_seeds.py [--table]   (--table prints the DESIGN.md section 8 tables)"""
 import json, os, subprocess, sys, tempfile, shutil
 V = os.path.dirname(os.path.dirname(os.path.abspath(__file__)))
@@ -8,43 +8,65 @@ ENV = dict(os.environ, GOFLAGS="-mod=mod", GOPROXY="off", GOSUMDB="off", GOTOOLC
 def sh(cmd, cwd):
     p = subprocess.run(cmd, cwd=cwd, shell=True, env=ENV, capture_output=True, text=True)
     return p.returncode, p.stdout + p.stderr
-wt = tempfile.mkdtemp(prefix="seedwt.", dir=os.environ.get("TMPDIR", "/tmp"))
-subprocess.run(["git", "-C", "/repo", "worktree", "add", "--detach", wt, "HEAD"], check=True, capture_output=True)
+from concurrent.futures import ThreadPoolExecutor
+import threading
+NW = int(os.environ.get("REFRESH_WORKERS", "8"))
+wts = []
+for _ in range(NW):
+    w = tempfile.mkdtemp(prefix="seedwt.", dir=os.environ.get("TMPDIR", "/tmp"))
+    subprocess.run(["git", "-C", "/repo", "worktree", "add", "--detach", w, "HEAD"], check=True, capture_output=True)
+    wts.append(w)
+free = list(wts); lock = threading.Lock()
+def one(job):
+    kind, d, name = job
+    base = os.path.join(V, d)
+    mp = os.path.join(base, name, "meta.json")
+    meta = json.load(open(mp))
+    with lock:
+        wt = free.pop()
+    try:
+        sh("git checkout -q -- . && git clean -qfd", wt)
+        rc, out = sh(f"git apply {base}/{name}/patch.diff", wt)
+        if rc != 0:
+            print("PATCH FAILED", name, out[:200]); return None
+        rc, out = sh(f"{V}/bin/polycheck -repo {wt} -p all -q -no-evidence", V)
+    finally:
+        with lock:
+            free.append(wt)
+    viol = sorted(set(l.split("property=")[1].split()[0] for l in out.splitlines() if l.startswith("VIOLATION")))
+    prop = meta["property"]
+    fails, own, last = [], [], None
+    for l in out.splitlines():
+        if l.startswith("FAIL "):
+            last = l[5:].split("  ")[0]
+        elif l.startswith("VIOLATION") and last is not None:
+            pid = l.split("property=")[1].split()[0]
+            fails.append(pid + ":" + last)
+            if pid == prop:
+                own.append(last)
+            last = None
+    if kind == "breaking":
+        meta["static_check"] = {"detected": prop in viol, "rules_fired_own_property": own, "rules_fired": fails, "properties_alarmed": viol}
+    else:
+        meta["static_check"] = {"false_alarm": len(viol) > 0, "rules_fired": fails, "properties_alarmed": viol}
+    json.dump(meta, open(mp, "w"), indent=1)
+    return (kind, name, meta)
+jobs = []
+for kind, d in (("breaking", "seeded"), ("benign", "benign")):
+    base = os.path.join(V, d)
+    for name in sorted(os.listdir(base)):
+        if os.path.exists(os.path.join(base, name, "meta.json")):
+            jobs.append((kind, d, name))
 rows = []
 try:
-    for kind, d in (("breaking", "seeded"), ("benign", "benign")):
-        base = os.path.join(V, d)
-        for name in sorted(os.listdir(base)):
-            mp = os.path.join(base, name, "meta.json")
-            if not os.path.exists(mp):
-                continue
-            meta = json.load(open(mp))
-            sh("git checkout -q -- . && git clean -qfd", wt)
-            rc, out = sh(f"git apply {base}/{name}/patch.diff", wt)
-            if rc != 0:
-                print("PATCH FAILED", name, out[:200]); continue
-            rc, out = sh(f"{V}/bin/polycheck -repo {wt} -p all -q -no-evidence", V)
-            viol = sorted(set(l.split("property=")[1].split()[0] for l in out.splitlines() if l.startswith("VIOLATION")))
-            prop = meta["property"]
-            fails, own, last = [], [], None
-            for l in out.splitlines():
-                if l.startswith("FAIL "):
-                    last = l[5:].split("  ")[0]
-                elif l.startswith("VIOLATION") and last is not None:
-                    pid = l.split("property=")[1].split()[0]
-                    fails.append(pid + ":" + last)
-                    if pid == prop:
-                        own.append(last)
-                    last = None
-            if kind == "breaking":
-                meta["static_check"] = {"detected": prop in viol, "rules_fired_own_property": own, "rules_fired": fails, "properties_alarmed": viol}
-            else:
-                meta["static_check"] = {"false_alarm": len(viol) > 0, "rules_fired": fails, "properties_alarmed": viol}
-            json.dump(meta, open(mp, "w"), indent=1)
-            rows.append((kind, name, meta))
+    with ThreadPoolExecutor(NW) as ex:
+        for r in ex.map(one, jobs):
+            if r is not None:
+                rows.append(r)
 finally:
-    subprocess.run(["git", "-C", "/repo", "worktree", "remove", "--force", wt], capture_output=True)
-    shutil.rmtree(wt, ignore_errors=True)
+    for w in wts:
+        subprocess.run(["git", "-C", "/repo", "worktree", "remove", "--force", w], capture_output=True)
+        shutil.rmtree(w, ignore_errors=True)
 br = [r for r in rows if r[0] == "breaking"]; be = [r for r in rows if r[0] == "benign"]
 print(f"breaking: {len(br)} stored, {sum(1 for r in br if r[2]['static_check']['detected'])} detected by their own property's check")
 print(f"benign:   {len(be)} stored, {sum(1 for r in be if r[2]['static_check']['false_alarm'])} false alarms")
